@@ -161,7 +161,7 @@ def _mech_c_job(args):
                 fired=sorted({f['rule'] for f in findings}) or [core.LAST_ERROR[-200:]])
 
 
-KINDS = ('rename', 'flipcmp', 'swapif', 'guard', 'unguard', 'retvar', 'splitand', 'renameparams', 'condvar')
+KINDS = ('rename', 'flipcmp', 'swapif', 'guard', 'unguard', 'retvar', 'splitand', 'renameparams', 'condvar', 'extract1', 'extract2', 'extract3', 'extract4', 'extract5', 'extract6')
 
 
 def run_mechanical(prop, repo='/repo', jobs=None):
